@@ -56,6 +56,11 @@ def drops_mask(e):
     return None
 
 
+def api_stmt(node):
+    from .. import api
+    return api.stmt_of(node)
+
+
 def run(ctx):
     src = ctx.src
     for r, d in (('R-OPTABLE', 'operator dunder -> pncbo(op=symbol, ifile1=self, ifile2=param, coordkeys=self._operator_exclude_vars)'),
@@ -176,139 +181,151 @@ def run(ctx):
         t = gg[0].test
         ctx.ok('R-MASKTABLE', par, where, '%s -> np.ma.%s on running values under %s' % (par, mf, norm(t)))
     # ---------------- R-COORDPASS in mask()
-    cp = None
-    for st in iter_stmts(fn.body):
-        if isinstance(st, ast.If) and 'coordkeys' in norm(st.test) and 'coords' in norm(st.test):
-            cp = st
-    if cp is None:
-        ctx.violation(Finding('R-COORDPASS', FILES, q, 'mask(): coordinate branch', 'mask() has no branch that passes coordinate variables through unmasked '
-                              '(if vk in coordkeys and not coords: ...; continue)', lineno=fn.lineno))
-    has_cont = cp is not None and any(isinstance(s, ast.Continue) for s in cp.body)
-    masked_in = [c for s in (cp.body if cp is not None else []) for c in walk_expr(s) if isinstance(c, ast.Call) and 'masked_' in (dotted(c.func) or '')]
-    first_mask_line = min([c.lineno for c in walk_expr(fn) if isinstance(c, ast.Call) and 'masked_' in (dotted(c.func) or '')])
-    assign_plain = cp is not None and any(isinstance(s, ast.Assign) and isinstance(s.targets[0], ast.Subscript) and
-                                          isinstance(s.value, ast.Subscript) for s in cp.body)
-    neg_ok = cp is not None and 'not coords' in norm(cp.test) and ' in coordkeys' in norm(cp.test)
-    if cp is None:
-        pass
-    elif has_cont and not masked_in and cp.lineno < first_mask_line and assign_plain and neg_ok:
-        ctx.ok('R-COORDPASS', 'mask() coordinate branch', where, 'coordinate variables assigned unmodified and continue before any masked_* call')
+    # path-wise over the body of the variable loop: on every path taken for a coordinate variable when coords is false, the data
+    # are stored as read and no masked_* function is applied
+    from .. import paths as _paths
+    vloop = None
+    for st in fn.body:
+        if isinstance(st, ast.For) and 'self.variables' in norm(st.iter) and isinstance(st.target, ast.Tuple) and len(st.target.elts) == 2:
+            vloop = st
+    if vloop is None:
+        raise AnalysisError('construct not understood: variable loop of mask()')
+    vkn, vvn = [e.id for e in vloop.target.elts]
+    ncoord, badp = 0, None
+    for pth in _paths.enumerate_paths(vloop.body, limit=50000):
+        if pth.polarity('%s in coordkeys' % vkn) is not True or pth.polarity('coords') is not False or pth.exit[0] == 'raise':
+            continue
+        ncoord += 1
+        res = _paths.expand(pth)
+        masked = [c for st in pth.stmts for c in walk_expr(st) if isinstance(c, ast.Call) and 'masked_' in (dotted(c.func) or '')]
+        plain = [new for st, new in res.stmts if isinstance(new, ast.Assign) and isinstance(new.targets[0], ast.Subscript) and
+                 norm(new.value) in ('%s[...]' % vvn, '%s[:]' % vvn, 'self.variables[%s][...]' % vkn)]
+        if masked or not plain:
+            badp = badp or (pth, masked)
+    if ncoord == 0:
+        ctx.violation(Finding('R-COORDPASS', FILES, q, vloop, 'mask() has no path that passes coordinate variables through unmasked '
+                              '(if vk in coordkeys and not coords: ...; continue)'))
+    elif badp is None:
+        ctx.ok('R-COORDPASS', 'mask() coordinate branch', where, 'coordinate variables assigned unmodified on the %d paths taken for them, no masked_* call' % ncoord)
     else:
-        ctx.violation(Finding('R-COORDPASS', FILES, q, cp, 'coordinate variables are not passed through unmasked before the masked_* chain'))
+        ctx.violation(Finding('R-COORDPASS', FILES, q, api_stmt(badp[1][0]) if badp[1] else vloop, 'coordinate variables are not passed through unmasked before the masked_* chain'))
     # ---------------- pncbo
     q = 'pncbo'
     where = 'src/PseudoNetCDF/%s %s' % (FUNCS, q)
+    # path-wise over the body of the variable loop with temporaries substituted (paths.py): how the branches are spelled (if / elif /
+    # else chain, guard clauses with continue, the value computed in one or several statements) is immaterial
+    from .. import paths as _paths
     loop = None
     for st in pncbo.body:
-        if isinstance(st, ast.For):
+        if isinstance(st, ast.For) and '.variables' in norm(st.iter):
             loop = st
-    if loop is None or not isinstance(loop.body[-1], ast.If):
+    if loop is None or not isinstance(loop.target, ast.Name):
         raise AnalysisError('construct not understood: pncbo loop')
-    top = loop.body[-1]
-    # branch 1: k in coordkeys -> copy ifile1's variable
+    kname = loop.target.id
     params = [a.arg for a in pncbo.args.args]
     f1, f2 = params[1], params[2]
-    t = norm(top.test)
-    b1 = top.body
-    cpok = (' in coordkeys' in t) and all(
-        isinstance(s, ast.Expr) and isinstance(s.value, ast.Call) and (dotted(s.value.func) or '').endswith('.copyVariable')
-        for s in b1)
-    src_ok = True
-    for s in b1:
-        for n in ast.walk(s):
-            if isinstance(n, ast.Name) and n.id in (f2, 'in2var'):
-                src_ok = False
-    in1 = None
-    for s in loop.body:
-        if isinstance(s, ast.Assign) and isinstance(s.targets[0], ast.Name) and s.targets[0].id == 'in1var':
-            in1 = s
-    in1_from_f1 = in1 is not None and norm(in1.value).startswith(f1 + '.variables[')
-    if cpok and src_ok and in1_from_f1 and not any(isinstance(n, ast.BinOp) for s in b1 for n in ast.walk(s)):
-        ctx.ok('R-COORDPASS', 'pncbo coordinate branch', where, 'coordinate keys copy the left operand variable, no arithmetic')
+    coord_paths, arith_paths = [], []
+    for pth in _paths.enumerate_paths(loop.body):
+        res = _paths.expand(pth)
+        if not res.feasible or pth.exit[0] == 'raise':
+            continue
+        has_eval = any(isinstance(c, ast.Call) and dotted(c.func) == 'eval' for st in pth.stmts for c in walk_expr(st))
+        if pth.polarity('%s in coordkeys' % kname) is True:
+            coord_paths.append((pth, res))
+        elif has_eval:
+            arith_paths.append((pth, res))
+    if not coord_paths:
+        ctx.violation(Finding('R-COORDPASS', FUNCS, q, loop, 'coordinate variables are not copied unchanged from the left operand (no path of the loop body is taken for `%s in coordkeys`)' % kname))
     else:
-        ctx.violation(Finding('R-COORDPASS', FUNCS, q, top, 'coordinate variables are not copied unchanged from the left operand'))
-    # arithmetic branch: find eval(...) and the createVariable sink
-    arith = None
-    node = top
-    while isinstance(node, ast.If):
-        if node.orelse and not (len(node.orelse) == 1 and isinstance(node.orelse[0], ast.If)):
-            arith = node.orelse
-        node = node.orelse[0] if (node.orelse and isinstance(node.orelse[0], ast.If)) else None
-    if arith is None:
-        raise AnalysisError('construct not understood: arithmetic branch of pncbo')
-    evals = [c for s in arith for c in walk_expr(s) if isinstance(c, ast.Call) and dotted(c.func) == 'eval']
-    if not evals:
+        bad = None
+        for pth, res in coord_paths:
+            copies = [c for st, new in res.stmts for c in walk_expr(new) if isinstance(c, ast.Call) and (dotted(c.func) or '').endswith('.copyVariable')]
+            src_ok = bool(copies) and all(c.args and norm(c.args[0]).startswith(f1 + '.variables[') for c in copies)
+            uses_f2 = any(isinstance(n, ast.Name) and n.id in (f2, 'in2var') for st, new in res.stmts for n in ast.walk(new))
+            arith = any(isinstance(n, ast.BinOp) and not isinstance(n.op, ast.Mod) for st, new in res.stmts for n in ast.walk(new)) or \
+                any(isinstance(c, ast.Call) and dotted(c.func) == 'eval' for st in pth.stmts for c in walk_expr(st))
+            if not (src_ok and not uses_f2 and not arith):
+                bad = pth
+        if bad is None:
+            ctx.ok('R-COORDPASS', 'pncbo coordinate branch', where, 'coordinate keys copy the left operand variable, no arithmetic (%d paths)' % len(coord_paths))
+        else:
+            ctx.violation(Finding('R-COORDPASS', FUNCS, q, (bad.stmts or [loop])[-1], 'coordinate variables are not copied unchanged from the left operand'))
+    if not arith_paths:
         raise AnalysisError('construct not understood: pncbo no longer evaluates "a op b" with eval')
-    tmpl = None
-    for c in evals:
-        a0 = c.args[0]
+    # every arithmetic path must satisfy every obligation: the first failing path is reported, ok only when all paths agree
+    fails, oks = {}, {}
+
+    def fail(rule, oid, st, msg):
+        fails.setdefault((rule, oid), (st, msg))
+
+    def good(rule, oid, msg):
+        oks.setdefault((rule, oid), msg)
+    for pth, res in arith_paths:
+        evals = [(c, st) for st in pth.stmts for c in walk_expr(st) if isinstance(c, ast.Call) and dotted(c.func) == 'eval']
+        c, est = evals[-1]
+        # the evaluated text, with temporaries substituted
+        a0 = [new for st, new in res.stmts if st is est][0]
+        a0 = [x for x in walk_expr(a0) if isinstance(x, ast.Call) and dotted(x.func) == 'eval'][-1].args[0]
+        tmpl = None
         if isinstance(a0, ast.BinOp) and isinstance(a0.op, ast.Mod) and const_str(a0.left):
             tmpl = (const_str(a0.left), a0.right)
-    if tmpl is None or not tmpl[0].replace(' ', '').startswith('in1var[...]%sin2var[...]'.replace(' ', '')) \
-            or not (isinstance(tmpl[1], ast.Name) and tmpl[1].id == params[0]):
-        ctx.violation(Finding('R-OPTABLE', FUNCS, q, _stmt(evals[0]),
-                              "the evaluated expression must be 'in1var[...] <op> in2var[...]' with op the symbol passed in; found %s"
-                              % (tmpl[0] if tmpl else norm(evals[0]))))
-    else:
-        ctx.ok('R-OPTABLE', 'pncbo template', where, "evaluates 'in1var[...] %s in2var[...]' % op (left operand first)")
-    # def-use chain from the eval result to the sink
-    valname = None
-    chain = []
-    sink = None
-    for s in arith:
-        if isinstance(s, ast.Assign) and isinstance(s.targets[0], ast.Name):
-            if any(c in list(walk_expr(s.value)) for c in evals):
-                valname = s.targets[0].id
-                chain.append(s)
-            elif valname and any(isinstance(n, ast.Name) and n.id == valname for n in walk_expr(s.value)):
-                calls = [c for c in walk_expr(s.value) if isinstance(c, ast.Call) and (dotted(c.func) or '').endswith('createVariable')]
-                if calls:
-                    sink = (s, calls[0])
-                else:
-                    chain.append(s)
-                    valname = s.targets[0].id
-    if sink is None:
-        # allocate-then-assign form
-        for s in arith:
-            if isinstance(s, ast.Assign) and isinstance(s.targets[0], ast.Subscript) and valname and \
-                    any(isinstance(n, ast.Name) and n.id == valname for n in walk_expr(s.value)):
-                sink = (s, None)
-    if sink is None or not chain:
-        raise AnalysisError('construct not understood: value path of pncbo')
-    chain_text = ' ; '.join(norm(s) for s in chain)
-    if not any('masked_invalid' in norm(s) or 'fix_invalid' in norm(s) or ('masked_where' in norm(s) and 'isfinite' in norm(s))
-               for s in chain):
-        ctx.violation(Finding('R-INVMASK', FUNCS, q, chain[0], 'the arithmetic result is stored without masking non-finite values'))
-    else:
-        ctx.ok('R-INVMASK', 'pncbo value path', where, chain_text[:120])
-    dm = None
-    for s in chain:
-        dm = dm or drops_mask(s.value)
-    if dm is not None:
-        ctx.violation(Finding('R-MASKKEEP', FUNCS, q, _stmt(dm),
-                              'the elementwise result passes through %s, which drops the mask of masked operands: their '
-                              'cells come back unmasked' % norm(dm)[:60]))
-    else:
-        ctx.ok('R-MASKKEEP', 'pncbo value path', where, 'no mask-dropping conversion between eval and the store')
-    # R-RESDTYPE
-    s, call = sink
-    if call is not None and kw(call, 'values') is not None and isinstance(kw(call, 'values'), ast.Name) \
-            and kw(call, 'values').id == valname:
-        ctx.ok('R-RESDTYPE', 'pncbo sink', where, 'createVariable(..., values=%s): dtype follows the computed value' % valname)
-    else:
-        # allocate-then-assign: the allocation dtype must be derived from the computed value
-        alloc = [c for st in arith for c in walk_expr(st) if isinstance(c, ast.Call) and (dotted(c.func) or '').endswith('createVariable')]
-        good = False
-        for c in alloc:
-            ty = c.args[1] if len(c.args) > 1 else kw(c, 'type')
-            if ty is not None and valname in [n.id for n in ast.walk(ty) if isinstance(n, ast.Name)]:
-                good = True
-        if good:
-            ctx.ok('R-RESDTYPE', 'pncbo sink', where, 'variable allocated with the dtype of the computed value')
+        # the names the text refers to are bound, on this path, to the operands' variables
+        binds = dict((st.targets[0].id, norm(st.value)) for st in pth.stmts if isinstance(st, ast.Assign) and isinstance(st.targets[0], ast.Name))
+        names_ok = binds.get('in1var', '').startswith(f1 + '.variables[') and binds.get('in2var', '').startswith(f2 + '.variables[')
+        if tmpl is None or not tmpl[0].replace(' ', '').startswith('in1var[...]%sin2var[...]'.replace(' ', '')) \
+                or not (isinstance(tmpl[1], ast.Name) and tmpl[1].id == params[0]) or not names_ok:
+            fail('R-OPTABLE', 'pncbo template', est,
+                 "the evaluated expression must be 'in1var[...] <op> in2var[...]' with op the symbol passed in and in1var/in2var the operands' variables; found %s"
+                 % (tmpl[0] if tmpl else norm(a0)[:60]))
         else:
-            ctx.violation(Finding('R-RESDTYPE', FUNCS, q, s,
-                                  'the result variable is allocated with the left operand dtype and the computed value is cast '
-                                  'into it: integer true division and mixed-dtype results are truncated, comparisons are not bool'))
+            good('R-OPTABLE', 'pncbo template', "evaluates 'in1var[...] %s in2var[...]' % op (left operand first)")
+        # the stored value: createVariable(..., values=V) or <new variable>[...] = V, V expanded
+        sink = None
+        for st, new in res.stmts:
+            for x in walk_expr(new):
+                if isinstance(x, ast.Call) and (dotted(x.func) or '').endswith('createVariable') and kw(x, 'values') is not None \
+                        and any(isinstance(y, ast.Call) and dotted(y.func) == 'eval' for y in ast.walk(kw(x, 'values'))):
+                    sink = (st, x, kw(x, 'values'))
+            if sink is None and isinstance(new, ast.Assign) and isinstance(new.targets[0], ast.Subscript) and \
+                    any(isinstance(y, ast.Call) and dotted(y.func) == 'eval' for y in ast.walk(new.value)):
+                sink = (st, None, new.value)
+        if sink is None:
+            raise AnalysisError('construct not understood: value path of pncbo')
+        sst, call, val = sink
+        # wrappers between the evaluated result and the stored value
+        vt = norm(val)
+        if not ('masked_invalid(' in vt or 'fix_invalid(' in vt or ('masked_where(' in vt and 'isfinite' in vt)):
+            fail('R-INVMASK', 'pncbo value path', sst, 'the arithmetic result is stored without masking non-finite values%s' % (
+                (' when ' + pth.describe()) if pth.conds else ''))
+        else:
+            good('R-INVMASK', 'pncbo value path', vt[:120])
+        dm = drops_mask(val)
+        if dm is not None:
+            fail('R-MASKKEEP', 'pncbo value path', sst, 'the elementwise result passes through %s, which drops the mask of masked operands: their '
+                 'cells come back unmasked' % norm(dm)[:60])
+        else:
+            good('R-MASKKEEP', 'pncbo value path', 'no mask-dropping conversion between eval and the store')
+        # R-RESDTYPE
+        if call is not None:
+            good('R-RESDTYPE', 'pncbo sink', 'createVariable(..., values=<computed value>): dtype follows the computed value')
+        else:
+            # allocate-then-assign: the allocation dtype must be derived from the computed value
+            alloc = [x for st, new in res.stmts for x in walk_expr(new) if isinstance(x, ast.Call) and (dotted(x.func) or '').endswith('createVariable')]
+            isgood = False
+            for x in alloc:
+                ty = x.args[1] if len(x.args) > 1 else kw(x, 'type')
+                if ty is not None and any(isinstance(y, ast.Call) and dotted(y.func) == 'eval' for y in ast.walk(ty)):
+                    isgood = True
+            if isgood:
+                good('R-RESDTYPE', 'pncbo sink', 'variable allocated with the dtype of the computed value')
+            else:
+                fail('R-RESDTYPE', 'pncbo sink', sst, 'the result variable is allocated with the left operand dtype and the computed value is cast '
+                     'into it: integer true division and mixed-dtype results are truncated, comparisons are not bool')
+    for (rule, oid), (st, msg) in sorted(fails.items()):
+        ctx.violation(Finding(rule, FUNCS, q, st, msg))
+    for (rule, oid), msg in sorted(oks.items()):
+        if (rule, oid) not in fails:
+            ctx.ok(rule, oid, where, msg)
     # ---------------- eval value path
     q = 'PseudoNetCDFFile.eval'
     fn = fm.func(q)
@@ -418,10 +435,13 @@ def run(ctx):
         extra = None
         for st in ak:
             for comp in [n for n in ast.walk(st.value) if isinstance(n, ast.comprehension)]:
+                cv = comp.target.id if isinstance(comp.target, ast.Name) else None
                 for cond in comp.ifs:
                     for part in (cond.values if isinstance(cond, ast.BoolOp) and isinstance(cond.op, ast.And) else [cond]):
                         t = norm(part)
-                        if t in ('k in vardict', 's.is_assigned()', 'k in vardict.keys()'):
+                        # accepted filters, by role: <element>.is_assigned(), and presence of the (name of the) element in the namespace
+                        if cv and t in ('%s in vardict' % cv, '%s.is_assigned()' % cv, '%s in vardict.keys()' % cv,
+                                        '%s.get_name() in vardict' % cv, '%s.get_name() in vardict.keys()' % cv):
                             continue
                         extra = (st, t)
         if extra:
